@@ -233,7 +233,14 @@ class Super:
             sub = self._instantiate(ctx, n.idx, bv, how)
             for tn in tails:
                 self._edge(tn, sub.entry, ("enter", cid))
-            if sub.returns:
+            if how[0] == "closure":
+                # may-call: the callee may also not run the closure at all
+                if not hasattr(self, "maycalls"):
+                    self.maycalls = []
+                for x in tails:
+                    self.maycalls.append((x, sub.entry, how[1], cid))
+                tails = list(sub.returns) + [x for x in tails if x not in sub.returns]
+            elif sub.returns:
                 tails = list(sub.returns)
             else:
                 tails = []  # diverges
@@ -273,6 +280,20 @@ class Super:
             b = w.by_id[target]
             if b["kind"] == "fn" and (self.inline_filter is None or self.inline_filter(b)):
                 out.append((target, ("call", t)))
+        else:
+            # a foreign function handed local closures (Option::map, and_then, unwrap_or_else, map_err, bool::then, ..):
+            # it may run them — splice each as a may-call (with a bypass edge), so that effects inside are on the paths
+            for ti in t.get("argt", []):
+                if not isinstance(ti, int):
+                    continue
+                ty = bv.crate.types[ti]
+                tid = ti
+                # look through references to the closure type
+                for m in self._ordered_mentions(bv.crate, tid):
+                    mb = w.by_id.get(m)
+                    if mb is not None and mb["kind"] == "closure" and not w.is_select_closure(m) and ty.get("k") in ("closure", "ref", "adt", "tuple", None) and (m, ("closure", t)) not in out:
+                        if ty.get("k") == "closure" or (ty.get("k") == "ref"):
+                            out.append((m, ("closure", t)))
         return out
 
     def _ordered_mentions(self, crate, tid, acc=None):
@@ -397,6 +418,15 @@ class Super:
                 out.append(n)
         return out
 
+    def bypass_edges(self, pred):
+        """Edges that skip a closure spliced as a may-call of a foreign combinator, for the calls satisfying
+        pred(call terminator, closure id, body view of the caller): e.g. `opt.map(|x| ..)` skips the closure exactly when opt is None."""
+        out = []
+        for (a, entry, t, cid) in getattr(self, "maycalls", []):
+            if pred(t, cid, self.nodes[a].ctx.bv):
+                out += [(a, b) for b in self.succ[a] if b != entry]
+        return out
+
     def fmt_path(self, p, limit=14):
         locs = []
         last = None
@@ -460,7 +490,7 @@ class Super:
                 tr = pbv.trace_op(t["args"][l - 1])
                 return self.resolve(par, tr)
             return None
-        if kind in ("poll", "chain", "select", "agg"):
+        if kind in ("poll", "chain", "select", "agg", "closure"):
             if upvar is None:
                 return None
             # locate the creation of this coroutine
